@@ -89,3 +89,23 @@ if '--len' in sys.argv:
                 for c in t.arg(0).children(): print('     idx/arr:', str(m.eval(c,model_completion=True))[:100])
     for d in m.decls():
         if d.name().startswith('iter') or d.name().startswith('nr'): print(d.name(), m[d])
+if '--sizes' in sys.argv:
+    def size(t):
+        seen=set(); st=[t]; n=0
+        while st:
+            x=st.pop()
+            if x.get_id() in seen: continue
+            seen.add(x.get_id()); n+=1; st.extend(x.children())
+        return n
+    sz=sorted([(size(f), str(f)[:100].replace('\n',' ')) for f in o.pc], reverse=True)
+    print('total', sum(s for s,_ in sz))
+    for s_,t in sz[:15]: print(s_, t)
+if '--drop' in sys.argv:
+    pat=sys.argv[sys.argv.index('--drop')+1]
+    pc=[f for f in o.pc if pat not in str(f)[:200]]
+    print('kept', len(pc), 'of', len(o.pc))
+    for opts in ({}, {'smt.ematching':False}):
+        s=z3.Solver(); s.set('timeout',20000)
+        for k,v in opts.items(): s.set(k,v)
+        for f in pc: s.add(f)
+        s.add(z3.Not(o.goal)); t=time.time(); print(opts, s.check(), time.time()-t)
